@@ -65,6 +65,11 @@ func New(pcapDir, indexDir, snapshotDir string, cachedKnownPcaps []*pcapmetadata
 				continue
 			}
 		}
+		if info.PacketCount == 0 {
+			// FromPcap does not register captures without packets either, their zero
+			// timestamps would be mistaken for "no further pcap to load" there
+			continue
+		}
 		b.knownPcaps = append(b.knownPcaps, info)
 		b.packetCount += info.PacketCount
 	}
